@@ -161,10 +161,21 @@ fn add_markers(block: &mut Block, t: &mut Tape) {
                 Stmt::Assign { targets, values } => {
                     targets.iter_mut().for_each(|e| expr(e, t));
                     values.iter_mut().for_each(|e| expr(e, t));
+                    if t.bool(80) {
+                        if let Some(last) = values.last_mut() {
+                            let v = std::mem::replace(last, Expr::Nil);
+                            *last = Expr::Call { f: Box::new(Expr::Name("mark".into())), args: vec![v, marker()], sugar: CallSugar::Parens };
+                        }
+                    }
                 }
                 Stmt::CompoundAssign { target, value, .. } => {
                     expr(target, t);
                     expr(value, t);
+                    if t.bool(150) {
+                        // a marker on the statement itself: `x += mark(<value>, "@L")`
+                        let v = std::mem::replace(value, Expr::Nil);
+                        *value = Expr::Call { f: Box::new(Expr::Name("mark".into())), args: vec![v, marker()], sugar: CallSugar::Parens };
+                    }
                 }
                 Stmt::Call(e) => expr(e, t),
                 Stmt::Do(b) => blk(b, t),
@@ -346,7 +357,7 @@ fn run(ctx: &RunCtx) {
     let avoid_gap = ctx.avoid("multiline-comment-gap");
     let avoid_locals = ctx.avoid("local-multiline-name-list");
     let avoid_recv = ctx.avoid("method-call-multiline-receiver");
-    let n = ctx.tier.pick(12_000, 250_000);
+    let n = ctx.tier.pick(40_000, 300_000);
     ctx.search("programs", n, 700, |tape, st| {
         let mut t = Tape::new(tape);
         let mode = t.weighted(&[3, 4, 3]);
@@ -422,7 +433,7 @@ fn run(ctx: &RunCtx) {
         CaseResult::Pass { nontrivial }
     });
     // bundling: every file's surviving markers move by one amount per file
-    let nb = ctx.tier.pick(3_000, 60_000);
+    let nb = ctx.tier.pick(6_000, 80_000);
     ctx.search("bundles", nb, 900, |tape, st| {
         let mut t = Tape::new(tape);
         let case = gen_bundle_case(&mut t);
@@ -500,14 +511,55 @@ fn gen_bundle_file(t: &mut Tape, index: usize, modules: usize) -> String {
             block.stmts.insert(pos, stmt);
         }
     }
-    if index > 0 {
-        block.stmts.push(Stmt::Return(vec![Expr::Table(vec![TableItem::Pos(marker())])]));
-    }
     let mut lo = LayoutOpts::all(luau);
     lo.respell_literals = false;
-    lo.trailing_newline = t.bool(200);
-    let text = luaprint::print_layout(&block, t, &lo);
-    text.replace("\"@L", &format!("\"@{}L", index))
+    lo.trailing_newline = index > 0 || t.bool(200);
+    let mut text = luaprint::print_layout(&block, t, &lo);
+    if index > 0 && !text.ends_with('\n') {
+        text.push('\n');
+    }
+    // modules may start with exported type declarations written over several lines (the bundler
+    // hoists them and has to account for every line they take)
+    let mut head = String::new();
+    if index > 0 && luau {
+        for k in 0..t.choose(4) {
+            head.push_str(
+                &[
+                    "export type Kind{}_{} =\n\t\"a\"\n\t| \"b\"\n\t| \"c\"\n",
+                    "export type Opt{}_{} = {\n\tx: number,\n\ty: string,\n}\n\t| nil\n",
+                    "export type Both{}_{} = { a: number }\n\t& { b: string }\n\t& {\n\tc: boolean\n}\n",
+                    "export type One{}_{} = number\n",
+                    "export type Long{}_{} =\n\t\"m1\"\n\t| \"m2\"\n\t| \"m3\"\n\t| \"m4\"\n\t| \"m5\"\n\t| \"m6\"\n\t| \"m7\"\n\t| \"m8\"\n",
+                    "export type Wide{}_{} = number\n\t| string\n\t| {\n\n\n\n\tx: number\n\n}\n\t| (\n\tnumber\n) -> ()\n\t| nil\n",
+                    "export type Fn{}_{} = (\n\tnumber,\n\tstring\n) -> (\n\tboolean\n)\n",
+                ][t.choose(7)]
+                .replacen("{}", &index.to_string(), 1)
+                .replacen("{}", &k.to_string(), 1),
+            );
+        }
+    }
+    // the declarations go in front of the code or between the code and the final `return`
+    let at_head = t.bool(128);
+    let shift = if at_head { head.matches('\n').count() as u32 } else { 0 };
+    let mut out = if at_head { head.clone() } else { String::new() };
+    // re-tag the markers: `"@L<n>"` -> `"@<index>L<n + shift>"`
+    let mut rest = text.as_str();
+    while let Some(p) = rest.find("\"@L") {
+        out.push_str(&rest[..p]);
+        let digits: String = rest[p + 3..].chars().take_while(|c| c.is_ascii_digit()).collect();
+        let n: u32 = digits.parse().unwrap_or(0);
+        out.push_str(&format!("\"@{}L{}", index, n + shift));
+        rest = &rest[p + 3 + digits.len()..];
+    }
+    out.push_str(rest);
+    if index > 0 {
+        if !at_head {
+            out.push_str(&head);
+        }
+        let line = out.matches('\n').count() + 1;
+        out.push_str(&format!("return {{\"@{}L{}\"}}\n", index, line));
+    }
+    out
 }
 
 fn gen_bundle_case(t: &mut Tape) -> BundleCase {
